@@ -1,4 +1,8 @@
 import PyYetiVerif.Model.BulkGrid
+import PyYetiVerif.Model.BulkDmigX
+import PyYetiVerif.Model.BulkMulti
+import PyYetiVerif.Model.BulkReal
+import PyYetiVerif.Model.BulkUset
 /-! Line protocol for C13 (text travels as lowercase hex of its ASCII bytes; a file is its
 lines joined by `0a`).
 
@@ -12,6 +16,12 @@ lines joined by `0a`).
   rdcards <hexname> <hextext>   → cards `;`-separated, fields `,`-separated: i<n> f<m>e<e> s<hex> b
   rdspoints|rdcsupers|rdextrn|rdsets|rddmig <hextext>,  rdtabled1 <hexname> <hextext>
       rddmig → name|form|mtype|rows|cols|frame  (frame: rows `/`-separated, entries `re@im`)
+  rddmigx <expanded 0|1> <square 0|1> <hextext>   → like rddmig (`rddmig(f, expanded=…, square=…)`)
+  pye <w> <p> <e|E|D> <bits>    → hex text of `'{:w.pE}'.format(x)` (x = the double with that bit pattern), pyf <w> <p> <bits> likewise
+  dmigr <hexname> <single 0|1> <mtype> <nr> <nc> rowids colids entries(2·nr·nc bit patterns, row major re im) → hex text
+  usettab <n> (cord)×n <m> (g <id> <cd> <cdtype> hx hy hz | s <id>)×m   → hex text of uset2bulk | error:…
+  b2u <hextext>                 → `id.cd.type` per grid of bulk2uset's table | error
+  fileok <seg>…                 → ok | bad      (`fileOKb bulkReaders`; <seg> = c<owner>/<hexline>/… | j/<hexline>/…)
   vecw  <arg>…                  → hex text of the rows (`" ".join`) | error:ValueError | error:IndexError
       <arg> = s <int>  |  v <k> <int>×k
   grids <wide 0|1> I <arg> C <arg> X <m> (hx hy hz)×m D <arg> P <oarg> S <oarg>   → hex text | error:…
@@ -166,6 +176,13 @@ def answerGrid (ws : List String) : Option String :=
       some (if cs.isEmpty then "none" else fmtRows cs)
   | _ => none
 
+def fmtDmigs : Option (List DmigRead) → String
+  | some ds => ";".intercalate (ds.map fun d =>
+      toHex d.name ++ "|" ++ fmtVal d.form ++ "|" ++ fmtVal d.mtype ++ "|" ++
+      " ".intercalate (d.rows.map fmtLbl) ++ "|" ++ " ".intercalate (d.cols.map fmtLbl) ++ "|" ++
+      "/".intercalate (d.frame.map fun row => " ".intercalate (row.map fun (x, y) => fmtVal x ++ "@" ++ fmtVal y)))
+  | none => "error"
+
 def answer (line : String) : String :=
   match (line.splitOn " ").filter (· ≠ "") with
   | "findseq" :: st :: ws => match st.toNat?, parseInts ws with
@@ -229,12 +246,48 @@ def answer (line : String) : String :=
   | ["rdsets", t] => match rdSets (linesOf t) with
       | some d => ";".intercalate (d.map fun (k, v) => fmtVal k ++ "=" ++ " ".intercalate (v.map toString))
       | none => "error"
-  | ["rddmig", t] => match rdDmig (linesOf t) with
-      | some ds => ";".intercalate (ds.map fun d =>
-          toHex d.name ++ "|" ++ fmtVal d.form ++ "|" ++ fmtVal d.mtype ++ "|" ++
-          " ".intercalate (d.rows.map fmtLbl) ++ "|" ++ " ".intercalate (d.cols.map fmtLbl) ++ "|" ++
-          "/".intercalate (d.frame.map fun row => " ".intercalate (row.map fun (x, y) => fmtVal x ++ "@" ++ fmtVal y)))
+  | ["pye", w, p, ec, b] => match w.toNat?, p.toNat?, b.toNat? with
+      | some w, some p, some b => toHex (pyE w p (ec.toList.headD 'E') (dblOf b))
+      | _, _, _ => "bad-op"
+  | ["pyf", w, p, b] => match w.toNat?, p.toNat?, b.toNat? with
+      | some w, some p, some b => toHex (pyF w p (dblOf b))
+      | _, _, _ => "bad-op"
+  | "dmigr" :: nm :: sg :: mt :: nr :: nc :: ws => match mt.toNat?, nr.toNat?, nc.toNat?, parseInts ws with
+      | some mt, some nr, some nc, some xs =>
+          let rowids := pairsOfInts (xs.take (2 * nr))
+          let colids := pairsOfInts ((xs.drop (2 * nr)).take (2 * nc))
+          let ents := pairsOfInts (xs.drop (2 * nr + 2 * nc))
+          let d : Dmig := { name := ofHex nm, single := sg == "1", mtype := mt, rowids := rowids,
+                            colids := colids, m := chunks nc ents }
+          fileHex d.linesR
+      | _, _, _, _ => "bad-op"
+  | "usettab" :: r => (do
+      let (cs, r) ← pCount pCord r
+      let pEnt : List String → Option (UEnt × List String)
+        | "g" :: i :: c :: t :: a :: b :: z :: r => match i.toInt?, c.toInt?, t.toInt? with
+            | some i, some c, some t => some (UEnt.grid i [] c t (ofHex a, ofHex b, ofHex z), r)
+            | _, _, _ => none
+        | "s" :: i :: r => i.toInt?.map fun i => (UEnt.spoint i 0, r)
+        | _ => none
+      let (es, _) ← pCount pEnt r
+      some (fmtRes (uset2bulkLines cs es))).getD "bad-op"
+  | ["b2u", t] => match bulk2usetGrids (linesOf t) with
+      | some gs => " ".intercalate (gs.map fun g => s!"{g.1}.{g.2.1}.{g.2.2}")
       | none => "error"
+  | "fileok" :: ws =>
+      let segs : List (Option Seg) := ws.map fun w =>
+        match w.splitOn "/" with
+        | tag :: ls =>
+            if tag == "j" then some (Seg.junk (ls.map ofHex))
+            else match (tag.drop 1).toNat?, ls with
+              | some o, f :: cs => some (Seg.card o (ofHex f) (cs.map ofHex))
+              | _, _ => none
+        | [] => none
+      match segs.mapM id with
+      | some ss => if fileOKb bulkReaders ss then "ok" else "bad"
+      | none => "bad-op"
+  | ["rddmig", t] => fmtDmigs (rdDmig (linesOf t))
+  | ["rddmigx", e, q, t] => fmtDmigs (rdDmigX ⟨e == "1", q == "1"⟩ (linesOf t))
   | ws => (answerGrid ws).getD "bad-op"
 
 partial def loop (h : IO.FS.Stream) (out : IO.FS.Stream) : IO Unit := do
